@@ -39,6 +39,7 @@ class _G:
         self.unions = {}
         self.enums = {}  # tag -> [names]
         self.enumerators = []
+        self.enum_values = {}
         self.globals = []  # (name, type)
         self.funcs = []  # (name, ret type, [param types])
         self.n = 0
@@ -52,7 +53,7 @@ class _G:
         return self.draw(st.sampled_from(list(xs)))
 
     def chance(self, num, den=10):
-        return self.draw(st.integers(0, den - 1)) < num
+        return self.draw(st.integers(0, den - 1)) >= den - num  # the simplest draw (0) means "no"
 
     def name(self, p):
         self.n += 1
@@ -60,6 +61,14 @@ class _G:
 
     def feat(self, tag):
         self.feats.add(tag)
+
+    def ok(self, tag):
+        """Use the construct `tag` unless it is to be avoided."""
+        if tag in self.cfg.avoid:
+            self.avoided.add(tag)
+            return False
+        self.feats.add(tag)
+        return True
 
     def want(self, tag, num=5, den=10):
         """Draw whether to use the construct `tag`; honours cfg.avoid."""
@@ -125,19 +134,18 @@ class _G:
             tag = self.name("E")
             names = [self.name("K") for _ in range(self.i(1, 4))]
             parts = []
+            cur = -1
             for nm in names:
-                if self.chance(4):
-                    v = self.pick([0, 1, -1, 5, 100, -128, 65536, 2**31 - 1])
-                    parts.append("%s = %d" % (nm, v))
+                if self.chance(4) or cur == 2**31 - 1:
+                    cur = self.pick([0, 1, -1, 5, 100, -128, 65536, 2**31 - 1])
+                    parts.append("%s = %d" % (nm, cur))
                     self.feat("enum:explicit-value")
-                    if v < 0:
+                    if cur < 0:
                         self.feat("enum:negative-value")
                 else:
+                    cur += 1
                     parts.append(nm)
-            # an implicit value after INT_MAX would overflow: make the last explicit one harmless
-            for j in range(len(parts) - 1):
-                if parts[j].endswith("= %d" % (2**31 - 1)) and "=" not in parts[j + 1]:
-                    parts[j + 1] += " = 3"
+                self.enum_values[nm] = cur
             self.enums[tag] = names
             self.enumerators += names
             self.lines.append("enum %s { %s };" % (tag, ", ".join(parts)))
@@ -174,33 +182,84 @@ class _G:
         k = self.i(0, 9)
         if k < 3:
             return str(self.pick([0, 1, 2, 7, 42, 100]))
-        if k < 5:
-            self.feat("init:out-of-range")
-            v = self.pick([cc.tmax(tn) + 1, cc.tmax(tn) + 2, 2 * cc.tmax(tn) + 3, 300, 70000, 2**32 + 5, cc.tmin(tn) - 1])
-            if v > 2**63 - 1:
-                return "%dull" % min(v, 2**64 - 1)
-            if v < -(2**63):
-                v = -(2**63) + 1
-            return "%d" % v if v >= 0 else "-%d" % -v
         if k < 6:
-            self.feat("init:negative-constant")
-            return "-%d" % self.pick([1, 2, 128, 129, 32768, 32769])
+            v = self.pick([cc.tmax(tn) + 1, cc.tmax(tn) + 2, 2 * cc.tmax(tn) + 3, 300, 70000, 2**32 + 5, cc.tmin(tn) - 1,
+                           -1, -2, -128, -129, -32768, -32769, 127, 255])  # fmt: skip
+            v = max(min(v, 2**64 - 1), -(2**63) + 1)
+            if not cc.fits(v, tn):
+                if "init:out-of-range" in self.cfg.avoid:
+                    self.avoided.add("init:out-of-range")
+                    return "1"
+                self.feat("init:out-of-range")
+            if v < 0:
+                self.feat("init:negative-constant")
+                return "-%d" % -v
+            return "%dull" % v if v > 2**63 - 1 else "%d" % v
         if k < 7 and self.enumerators:
             self.feat("init:enumerator")
             return self.pick(self.enumerators)
         if k < 8:
             self.feat("init:char-constant")
-            return self.pick(sorted(cc.CHAR_LITS))
+            return self.pick(["'a'", "'Z'", "'0'", "'\\n'", "'\\0'", "'\\2'"])
         if self.cfg.const_expr is not None:
-            e = self.draw(self.cfg.const_expr(self.i(1, 2)))
+            if self.cfg.const_expr == "supported":
+                e = self.small_constexpr(self.i(1, 3))
+            else:
+                e = self.draw(self.cfg.const_expr(self.i(1, 2)))
+            try:
+                v = cc.ref_eval(e, self.enum_values)[1]
+                # the value an evaluator without conversions (and with floor division) would pack
+                nv = cc.model_eval(e, self.enum_values, frozenset(["noconv"]))[1]
+                nf = cc.model_eval(e, self.enum_values, frozenset(["noconv", "floor"]))[1]
+            except (cc.UB, cc.ModelExc):
+                v = nv = nf = 0
+            if not (cc.fits(v, tn) and cc.fits(nv, tn) and cc.fits(nf, tn)):
+                if "init:out-of-range" in self.cfg.avoid:
+                    self.avoided.add("init:out-of-range")
+                    return "2"
+                self.feat("init:out-of-range")
             for f in cc.features(e):
                 self.feat("constexpr:" + f)
             return cc.render(e, self.chance(3))
         return "%d" % self.i(0, 1000)
 
+    def small_constexpr(self, depth):
+        """Constant expression tree over the operators ppci's own sources use in constant expressions."""
+        k = self.i(0, 9) if depth > 0 else self.i(0, 2)
+        if k < 2:
+            v = self.pick([0, 1, 2, 3, 7, 10, 100, 255, 256, 1000, 65535, 65536, 2**31 - 1])
+            return ["lit", self.pick(["%d", "%d", "0x%x", "%dL", "%du", "%dUL", "%dLL"]) % v]
+        if k < 3:
+            if self.enumerators and self.chance(5):
+                if "cx:enum" in self.cfg.avoid:
+                    self.avoided.add("cx:enum")
+                else:
+                    return ["enum", self.pick(self.enumerators)]
+            return ["sizeoft", self.pick(["int", "char", "long", "short", "long long", "char *", "unsigned long", "int[3]"])]
+        if k < 8:
+            a, b = self.small_constexpr(depth - 1), self.small_constexpr(depth - 1)
+            for op in [self.pick(["+", "-", "*", "/", "&", "^"]), "&"]:
+                e = ["bin", op, a, b]
+                try:
+                    cc.ref_eval(e, self.enum_values)
+                    return e
+                except cc.UB:
+                    pass
+            return a
+        if k < 9:
+            e = ["un", "-", self.small_constexpr(depth - 1)]
+            try:
+                cc.ref_eval(e, self.enum_values)
+                return e
+            except cc.UB:
+                return e[2]
+        return ["sizeofe", self.small_constexpr(depth - 1)]
+
     def flt_const(self):
         self.feat("init:float")
-        return self.pick(["0.0", "1.5", "-2.25", "3", "1e3", "-1", "(double)3", "2.5f", "1.0 / 4", "(float)1 + 2", "0x10", "'a'"])
+        if self.want("literal:float-suffix", 1):
+            return self.pick(["2.5f", "1.0F", "3.0L"])
+        return self.pick(["0.0", "1.5", "-2.25", "3", "1e3", "-1", "(double)3", "1.0 / 4", "(float)1 + 2", "0x10", "'a'"])
 
     # -- initialisers -----------------------------------------------------------
     def initializer(self, t, glob, depth=0):
@@ -245,29 +304,28 @@ class _G:
         if k < 8 and arrs:
             a = self.pick(arrs)
             kind = self.i(0, 2)
-            if kind == 0:
-                self.feat("init:array-decay")
+            if kind == 0 and self.ok("init:array-decay"):
                 return a[0]
             idx = self.i(0, a[1][2] - 1)
             if kind == 1 and self.want("init:address-of-element", 10):
                 return "&%s[%d]" % (a[0], idx)
             if self.want("init:array-plus-offset", 10):
                 return "%s + %d" % (a[0], idx)
-            return a[0]
+            return "0"
         if target == ("int", "char") and self.want("init:string-pointer", 8):
             return self.string_lit(20)
         return "0"
 
     def string_lit(self, maxlen):
         n = self.i(0, min(maxlen, 6))
-        chars = [self.pick(["a", "b", "Z", "0", " ", "\\n", "\\t", "\\\\", "\\\"", "\\0", "\\x41", "\\101", "%", "'"]) for _ in range(n)]
+        chars = [self.pick(["a", "b", "Z", "0", " ", "\\n", "\\t", "\\\\", "\\\"", "\\0", "\\x41\" \"", "\\101", "%", "'"]) for _ in range(n)]
         return '"%s"' % "".join(chars)
 
     def array_init(self, t, glob, depth):
         et, n = t[1], t[2]
-        if et in (("int", "char"), ("int", "unsigned char"), ("int", "signed char")) and self.chance(5):
+        if et in (("int", "char"), ("int", "unsigned char"), ("int", "signed char")) and self.chance(5) and (depth == 0 or self.ok("init:string-row")):
             k = self.i(0, n)
-            body = "".join(self.pick(["a", "b", "Z", "0", " ", "\\n", "\\0", "\\x41"]) for _ in range(k))
+            body = "".join(self.pick(["a", "b", "Z", "0", " ", "\\n", "\\0", "\\101"]) for _ in range(k))
             if k == n:
                 self.feat("init:string-exact-fit")
             self.feat("init:string-array")
@@ -283,8 +341,8 @@ class _G:
                 items.append(self.initializer(et, glob, depth + 1))  # continues after the designated element
             return "{ %s }" % ", ".join(items)
         cnt = self.pick([n, n, max(1, n - 1), 1])
-        if cnt < n:
-            self.feat("init:partial-array")
+        if cnt < n and not self.ok("init:partial-array"):
+            cnt = n
         if et[0] in ("arr", "struct") and self.want("init:brace-elision", 2) and self._scalar_leaves(et) is not None:
             leaves = self._scalar_leaves(et)
             flat = []
@@ -334,8 +392,8 @@ class _G:
                     items.append(".%s = %s" % (fn, self.initializer(ft, glob, depth + 1)))
             return "{ %s }" % ", ".join(items)
         cnt = self.pick([len(fields), len(fields), max(1, len(fields) - 1), 1])
-        if cnt < len(fields):
-            self.feat("init:partial-struct")
+        if cnt < len(fields) and not self.ok("init:partial-struct"):
+            cnt = len(fields)
         items = [self.initializer(ft, glob, depth + 1) for fn, ft, w in fields[:cnt]]
         if any(w is not None for _, _, w in fields[:cnt]):
             self.feat("init:bitfield")
@@ -365,7 +423,7 @@ class _G:
                 self.lines.append("%s%s%s = %s;" % (sc, q, self.decl(t, nm), self.initializer(t, True)))
             else:
                 self.lines.append("%s%s%s;" % (sc, q, self.decl(t, nm)))
-            self.globals.append((nm, t))
+            self.globals.append((nm, t if not q.startswith("const") else ("const", t)))
 
     # -- expressions (block scope) -----------------------------------------------
     def int_expr(self, env, depth):
@@ -517,40 +575,42 @@ class _G:
         self.feat("stmt:switch")
         ctl = self.int_expr(env, 1)
         if self.chance(3):
-            ctl = "(%s)(%s)" % (self.pick(["char", "long", "unsigned char", "unsigned long", "short"]), ctl)
-            self.feat("stmt:switch-non-int")
+            if self.want("stmt:switch-long", 4):
+                ctl = "(%s)(%s)" % (self.pick(["long", "unsigned long", "long long"]), ctl)
+            else:
+                ctl = "(%s)(%s)" % (self.pick(["char", "unsigned char", "short"]), ctl)
+                self.feat("stmt:switch-non-int")
         out = ["switch (%s) {" % ctl]
         vals = set()
         n = self.i(0, 4)
         default_at = self.i(0, n) if self.chance(7) else None
+        if default_at is not None and default_at < n and not self.ok("stmt:default-not-last"):
+            default_at = n
+        if n == 0 and default_at is None and not self.ok("stmt:empty-switch"):
+            default_at = 0
         for j in range(n + 1):
             if j == default_at:
-                out.append("default:")
-                if j < n:
-                    self.feat("stmt:default-not-last")
+                out.append("default: ;")
             if j < n:
                 v = self.pick([0, 1, 2, 3, 5, 10, 100, -1, 255, 65536])
                 if v in vals:
                     continue
                 vals.add(v)
                 lab = "%d" % v if v >= 0 else "-%d" % -v
-                if self.chance(2):
+                if self.want("stmt:case-constant-expression", 2):
                     lab = self.pick(["%s + 0", "(int)%s", "%s * 1", "%s | 0"]) % (lab if v >= 0 else "(%s)" % lab)
-                    self.feat("stmt:case-constant-expression")
-                out.append("case %s:" % lab)
+                out.append("case %s: ;" % lab)
             body = self.block(env, depth, ctx | {"switch"}, ret)
             if self.want("stmt:case-in-nested-block", 1) and j < n:
                 w = self.pick([7, 8, 9, 11, 12, 13])
                 if w not in vals:
                     vals.add(w)
-                    body = ["if (%s) {" % self.int_expr(env, 1), "case %d:" % w] + body + ["}"]
+                    body = ["if (%s) {" % self.int_expr(env, 1), "case %d: ;" % w] + body + ["}"]
             out += body
             if self.chance(7):
                 out.append("break;")
             else:
                 self.feat("stmt:fallthrough")
-        if n == 0 and default_at is None:
-            self.feat("stmt:empty-switch")
         out.append("}")
         return out
 
